@@ -396,8 +396,17 @@ pub fn build_config(spec: &CfgSpec, version: u32, sh: &Arc<LShared>) -> Config {
     for l in &spec.loggers {
         b = b.logger(CfgLogger::builder().additive(l.additive).appenders(l.appenders.iter().map(|i| format!("a{}", i))).build(l.name.clone(), level_filter(l.level)));
     }
-    b.build(Root::builder().appenders(spec.root_appenders.iter().map(|i| format!("a{}", i))).build(level_filter(spec.root_level)))
-        .expect("generated configuration must be valid")
+    // every third version is built with another root level which is then
+    // corrected through the public mutator Config::root_mut().set_level
+    let detour = version % 3 == 1;
+    let built_level = if detour { level_filter((spec.root_level + 3) % 6) } else { level_filter(spec.root_level) };
+    let mut cfg = b
+        .build(Root::builder().appenders(spec.root_appenders.iter().map(|i| format!("a{}", i))).build(built_level))
+        .expect("generated configuration must be valid");
+    if detour {
+        cfg.root_mut().set_level(level_filter(spec.root_level));
+    }
+    cfg
 }
 
 pub fn do_set_config(sh: &Arc<LShared>, v: u32, nested: bool) {
